@@ -43,7 +43,9 @@ StructCases ==
   \cup {Desc(k, "-", "-", "-", s) : k \in {"endpoint", "consumes", "resp_code", "resp_prop", "resp_header",
                                           "resp_enum", "resp_prop_added", "identity",
                                           \* definitions no endpoint uses: the target of an allOf is renamed / dropped
-                                          "unref_allof_renamed", "unref_allof_dropped", "unref_ref_renamed"}, s \in BOOLEAN}
+                                          "unref_allof_renamed", "unref_allof_dropped", "unref_ref_renamed",
+                                          \* tuple-typed items (items as an array of schemas): same document, and one position edited
+                                          "tuple_identity", "tuple_edit"}, s \in BOOLEAN}
   \cup {Desc("location", "query", ln, t, s) : ln \in {"INT", "STRPLAIN"}, t \in {"header", "formData"}, s \in BOOLEAN}
   \cup {Desc("cf", l, "ARR", cf, s) : l \in {"query", "header", "formData"}, cf \in {"pipes", "ssv"}, s \in BOOLEAN}
 
@@ -75,6 +77,8 @@ HdrsXY  == [X |-> [type |-> "string"], Y |-> [type |-> "integer"]]
 HdrsX   == [X |-> [type |-> "string"]]
 
 ObjQ == [type |-> "object", properties |-> [q |-> [type |-> "string"]]]
+TupleBody(extra) == [type |-> "object", properties |-> [pair |-> [type |-> "array", itemsTuple |-> <<[type |-> "string"], [type |-> "integer"] @@ extra>>],
+                                                         name |-> [type |-> "string"]]]
 UnrefObj == [type |-> "object", properties |-> [id |-> [type |-> "integer"], name |-> [type |-> "string"]]]
 ObjQP(leaf, req) ==
   IF req THEN [type |-> "object", properties |-> [q |-> [type |-> "string"], p |-> leaf], required |-> <<"p">>]
@@ -172,6 +176,10 @@ Pair(c) ==
          [A |-> [BaseAOS EXCEPT !.defs = [Account |-> [type |-> "object", properties |-> [owner |-> [ref |-> "Person"]]], Person |-> UnrefObj]],
           B |-> [BaseAOS EXCEPT !.defs = [Account |-> [type |-> "object", properties |-> [owner |-> [ref |-> "Zebra"]]], Zebra |-> UnrefObj]],
           reqs |-> {}]
+    [] c.kind = "tuple_identity" ->
+         [A |-> Put(BaseAOS, "body", TupleBody(<<>>)), B |-> Put(BaseAOS, "body", TupleBody(<<>>)), reqs |-> {}]
+    [] c.kind = "tuple_edit" ->
+         [A |-> Put(BaseAOS, "body", TupleBody(<<>>)), B |-> Put(BaseAOS, "body", TupleBody([maximum |-> 8])), reqs |-> {}]
     [] c.kind = "identity" ->
          [A |-> RespAOS(PropsAB, HdrsXY, {"r200"}), B |-> RespAOS(PropsAB, HdrsXY, {"r200"}), reqs |-> {}]
 
